@@ -1648,7 +1648,7 @@ def runtime_sample(ck: Check, thorough: bool):
     t_lock = time.time()
     # C10_LOCK_WAIT_S: development override of the waiting time
     wait_s = float(os.environ.get('C10_LOCK_WAIT_S',
-                                  1800 if thorough else 600))
+                                  600 if thorough else 60))
     with runtime_lock(wait_s) as got:
         ck.coverage['runtime_lock_wait_s'] = round(time.time() - t_lock, 1)
         if not got:
